@@ -196,9 +196,14 @@ pub fn decompress_async<'a>(
         Compression::Brotli => Ok(Box::new(AsyncBrotliDecoder::new(BufReader::new(
             compressed_data,
         )))),
-        Compression::ZStd => Ok(Box::new(AsyncZstdDecoder::new(BufReader::new(
-            compressed_data,
-        )))),
+        Compression::ZStd => {
+            let mut decoder = AsyncZstdDecoder::new(BufReader::new(compressed_data));
+            // a zstd stream may consist of several frames: read all of them, as the
+            // synchronous decoder does
+            decoder.multiple_members(true);
+
+            Ok(Box::new(decoder))
+        }
     }
 }
 
